@@ -335,7 +335,10 @@ class C11(Check):
             if ok:
                 want = self.expected(spec, X, op["name"], overrides)
                 if out.value != want:
-                    ctx.violate({"invariant": "read_equals_recomputation", "entry": "read"},
+                    declared_in = "host"
+                    if spec.get("sub") and any(q["name"] == op["name"] for q in spec["sub"]["props"]):
+                        declared_in = spec["sub"]["kind"] + "_subclass"
+                    ctx.violate({"invariant": "read_equals_recomputation", "entry": "read", "declared_in": declared_in},
                                 {"op": op, "got": strip_addr(repr(out.value))[:200], "want": strip_addr(repr(want))[:200]}, idx)
             return
         if k == "override":
